@@ -731,7 +731,7 @@ def older_sampler_layouts(res, rng, n):
         # ... and instruments as other writers store them (a chunk left out, undocumented flag bits, a slot without waveform block)
         scratch = Result()
         src = chunks
-        if k % 2:
+        if (k // 3) % 2:
             try:
                 import rv.api as api
                 gc = workload.module_case(1, 778000 + k, "quick", "Sampler", ctx="synth")
